@@ -35,3 +35,26 @@ package storage
 //@   ensures [absent] err == nil && result0 == nil ==> !SHasRound(StoreVer(recv), hash)
 //@   ensures [found] result0 != nil ==> fresh(result0) && SHasRound(StoreVer(recv), hash) && result0.Hash.HasValue() &&
 //@       result0.NodeId == SRoundNodeId(StoreVer(recv), hash) && result0.Number == SRoundNumber(StoreVer(recv), hash)
+//@   -- store invariant: a ROUND record is stored under its own Hash field (every writeRound call of startNewRound /
+//@   -- UpdateEmptyHeadRound writes such a record: PART 2, clauses [self-rec]/[head-rec]; LoadGenesis is not verified)
+//@   ensures [keyed] result0 != nil ==> result0.Hash == hash
+
+//@ assume func (s Store) StartNewRound(node, number, references, finalStart)
+//@   -- one badger transaction: [number != 0: the link node -> external.NodeId := external.Number, the old head record is
+//@   -- re-stored under references.Self as the final round], a new head record under node; Commit last (all or nothing).
+//@   requires references != nil
+//@   requires [rounds] number != 0 ==> SHasRound(StoreVer(recv), node) && SHasRound(StoreVer(recv), references.External) -- startNewRound dereferences both records
+//@   modifies ghost storever
+//@   ensures [fail] err != nil ==> StoreVer(recv) == old(StoreVer(recv))
+//@   ensures [link] err == nil && number != 0 ==>
+//@       SLink(StoreVer(recv), node, old(SRoundNodeId(StoreVer(recv), references.External))) == old(SRoundNumber(StoreVer(recv), references.External))
+//@   -- the LINK key is Blake3(from | to): that no other link changes is collision freeness of the hash (idealised)
+//@   ensures [links-frame] err == nil ==> forall t crypto.Hash :: {SLink(StoreVer(recv), node, t)}
+//@       (number == 0 || t != old(SRoundNodeId(StoreVer(recv), references.External))) ==> SLink(StoreVer(recv), node, t) == old(SLink(StoreVer(recv), node, t))
+//@   ensures [head] err == nil ==> SHasRound(StoreVer(recv), node) && SRoundNodeId(StoreVer(recv), node) == node && SRoundNumber(StoreVer(recv), node) == number &&
+//@       SRoundSelf(StoreVer(recv), node) == references.Self && SRoundExternal(StoreVer(recv), node) == references.External
+//@   ensures [prev] err == nil && number != 0 ==> SHasRound(StoreVer(recv), references.Self) &&
+//@       SRoundNodeId(StoreVer(recv), references.Self) == old(SRoundNodeId(StoreVer(recv), node)) && SRoundNumber(StoreVer(recv), references.Self) == old(SRoundNumber(StoreVer(recv), node))
+//@   ensures [rounds-kept] err == nil ==> forall h crypto.Hash :: {SHasRound(StoreVer(recv), h)} h != node && h != references.Self ==>
+//@       SHasRound(StoreVer(recv), h) == old(SHasRound(StoreVer(recv), h)) && SRoundNodeId(StoreVer(recv), h) == old(SRoundNodeId(StoreVer(recv), h)) &&
+//@       SRoundNumber(StoreVer(recv), h) == old(SRoundNumber(StoreVer(recv), h))
